@@ -33,6 +33,8 @@ def c01(repo, rep):
         M.r10(repo, rep)                     # the chain starts from the requested initial condition
     with rep.keep("TRUTHY"):
         X.truthy_rule(repo, rep, ["simulation"])
+    M.initial_record_rule(repo, rep)   # the initial condition is recorded at tmin
+    X.shared_value_rule(repo, rep, ["simulation"], ["fast_SIR", "Gillespie_SIR"])   # per-node histories / per-edge delays are separate objects / draws
 
 
 def c02(repo, rep):
@@ -54,6 +56,8 @@ def c02(repo, rep):
         M.r10(repo, rep)                      # the chain starts from the requested initial infected set
     with rep.keep("TRUTHY"):
         X.truthy_rule(repo, rep, ["simulation"])
+    M.initial_record_rule(repo, rep)   # the initial condition is recorded at tmin
+    X.shared_value_rule(repo, rep, ["simulation"], ["fast_SIS", "Gillespie_SIS"])   # per-node histories / per-edge delays are separate objects / draws
 
 
 def c03(repo, rep):
@@ -86,6 +90,10 @@ def c04(repo, rep):
     with rep.keep("R11"):
         G.r11_sir_sis(repo, rep, "Gillespie_SIR")   # "one legal move": a stale or phantom I-S link fires a transmission onto a
         G.r11_sir_sis(repo, rep, "Gillespie_SIS")   # node that is not susceptible (also through a self-loop)
+    with rep.keep("R12.I6"):
+        listdict.r12(repo, rep)                      # "every simulator returns": an emptied weighted candidate set weighs 0,
+                                                     # or the generic loops draw from an empty list at extinction
+    X.shared_value_rule(repo, rep, ["simulation"], T.SIMULATORS)   # per-node histories / per-edge delays are separate objects / draws
 
 
 def c05(repo, rep):
@@ -107,6 +115,8 @@ def c05(repo, rep):
         M.investigation_rule(repo, rep)      # "per-node statuses at tmin" are read through node_status / get_statuses
     with rep.keep("R14.gin"):
         M.r14(repo, rep)                     # "initially recovered nodes ... are never infected later" (percolation-based runs)
+    M.initial_record_rule(repo, rep)   # the initial condition is recorded at tmin
+    X.shared_value_rule(repo, rep, ["simulation"], T.SIMULATORS)   # per-node histories / per-edge delays are separate objects / draws
 
 
 def c06(repo, rep):
@@ -153,6 +163,8 @@ def c09(repo, rep):
     with rep.keep("INV"):
         M.investigation_rule(repo, rep)
     C.r1(repo, rep, callers=T.SIR_EVENT + T.SIS_EVENT + T.SIS_NONMARKOV)
+    M.initial_record_rule(repo, rep)   # the initial condition is recorded at tmin
+    X.shared_value_rule(repo, rep, ["simulation"], T.SIMULATORS)   # per-node histories / per-edge delays are separate objects / draws
 
 
 def c10(repo, rep):
@@ -174,6 +186,8 @@ def c10(repo, rep):
     M.full_data_handoff(repo, rep)
     with rep.keep("H-guard"):
         H.sir_guards(repo, rep)              # pred_inf_time becomes the infection time of the history: only queued events may set it
+    M.initial_record_rule(repo, rep)   # the initial condition is recorded at tmin
+    X.shared_value_rule(repo, rep, ["simulation"], T.SIMULATORS)   # per-node histories / per-edge delays are separate objects / draws
 
 
 def c11(repo, rep):
@@ -191,8 +205,10 @@ def c11(repo, rep):
     with rep.keep("R10d", "R10e", "R10a", "R10b"):
         M.r10(repo, rep)
     M.full_data_handoff(repo, rep)
+    M.transform_history_rule(repo, rep)   # the property is observed on the full-data histories: infection and recovery time of every node
     with rep.keep("TRUTHY"):
         X.truthy_rule(repo, rep, ["simulation"])    # "distance from the initially infected set": the set that was requested
+    X.shared_value_rule(repo, rep, ["simulation"], ["fast_SIR", "fast_nonMarkov_SIR", "nonMarkov_directed_percolate_network_with_timing", "directed_percolate_network", "get_infected_nodes"])   # per-node histories / per-edge delays are separate objects / draws
 
 
 def c12(repo, rep):
@@ -209,6 +225,7 @@ def c12(repo, rep):
         M.r10(repo, rep)
     with rep.keep("TRUTHY"):
         X.truthy_rule(repo, rep, ["simulation"])
+    X.shared_value_rule(repo, rep, ["simulation"], T.DISCRETE)   # per-node histories / per-edge delays are separate objects / draws
 
 
 def c13(repo, rep):
@@ -226,6 +243,7 @@ def c13(repo, rep):
         M.r10(repo, rep)
     with rep.keep("TRUTHY"):
         X.truthy_rule(repo, rep, ["simulation"])
+    X.shared_value_rule(repo, rep, ["simulation"], ["fast_nonMarkov_SIS"])   # per-node histories / per-edge delays are separate objects / draws
 
 
 def c14(repo, rep):
